@@ -22,6 +22,8 @@ def seeded_table():
             if v["result"] == "caught" and v.get("first"):
                 first = v["first"][0].replace("clause=", "").replace("|", "/")[:110]
                 break
+        if m.get("neutralised"):
+            caught.append("no longer a violation since fix D29 (see meta.json)")
         conf = "yes" if ev.get("confirmed") else f"NO (demo {ev.get('demo_without')}/{ev.get('demo_with')}, tests: {ev.get('repo_tests')})"
         summ = str(m.get("summary", "")).replace("|", "/").replace("\n", " ")[:260]
         needs = str(m.get("needs", "")).replace("|", "/").replace("\n", " ")[:220]
